@@ -174,7 +174,7 @@ def main():
                 if prop not in it["props"]:
                     continue
                 oid = "verus:%s:%s::%s" % (n, it["file"], it["item"])
-                fails = [f for f in r["failures"] if f["item"] == it["file"] + " :: " + it["item"]]
+                fails = [f for f in r["failures"] if (it["file"] + " :: " + it["item"]) in f.get("items", [f["item"]])]
                 ok = not fails
                 obligations.append({
                     "id": oid, "engine": "verus/z3", "kind": "proved", "ok": ok,
@@ -187,6 +187,8 @@ def main():
                 {k: it[k] for k in ("file", "item", "repo_lines", "sha256", "tokens", "hunks", "renamed_tokens", "differs_from_template")}
                 for it in r["items"]]})
         for h in kres["harnesses"]:
+            if h.get("inconclusive"):
+                inconclusive.append("kani: " + h["inconclusive"])
             obligations.append(h)
             solver_ms += int(h.get("time_s", 0) * 1000)
         for t in kres["trusted"]:
